@@ -58,7 +58,7 @@ def main():
         if kind == "benign":
             ok = not fired
         else:
-            ok = row.get(o, (0, ""))[0] == 1
+            ok = row.get(o.split("-")[0], (0, ""))[0] == 1
         bad += not ok
         print(f"{'ok  ' if ok else 'BAD '} {kind}/{o}/{p}: " + (" ".join(f"{pid}:{cd[0]}" for pid, cd in sorted(fired.items())) or "silent"))
         if not ok or "-v" in os.environ.get("PM_FLAGS", ""):
